@@ -331,6 +331,9 @@ fn c11_scenario_x(name: &'static str, progs: Vec<Vec<COp>>, abandon: bool) -> Sc
         must!(cx, "setup:create-sub", { let a = cx.api.clone(); async move { a.create_sub(S0, T0, 10, None).await } });
         must!(cx, "setup:create-sub", { let a = cx.api.clone(); async move { a.create_sub(S1, T0, 10, None).await } });
         must!(cx, "setup:publish", { let a = cx.api.clone(); async move { a.publish(T0, vec![(b"held".to_vec(), vec![])]).await } });
+        if name.contains("two-topics") {
+            must!(cx, "setup:create-topic", { let a = cx.api.clone(); async move { a.create_topic(T1).await } });
+        }
         let l = start(&cx, &progs, &[]);
         let mut abandoned = false;
         if abandon {
@@ -432,6 +435,7 @@ pub fn c11_sched(thorough: bool) -> Vec<Unit> {
         ("delete-sub‖create-sub-same-name", vec![vec![DeleteSub(S0)], vec![CreateSub(S0, T0), CreateSub(S0, T0)], vec![Publish(T0, 1)]]),
         ("delete-topic;create-topic‖create-sub", vec![vec![DeleteTopic(T0), CreateTopic(T0)], vec![CreateSub(S2, T0)], vec![Publish(T0, 1)]]),
         ("delete-sub‖delete-topic", vec![vec![DeleteSub(S0)], vec![DeleteTopic(T0)], vec![ListTopicSubs(T0)]]),
+        ("two-topics:create-sub‖create-sub-same-name", vec![vec![CreateSub(S2, T0)], vec![CreateSub(S2, T1)], vec![Publish(T1, 1)]]),
         ("delete-sub;list‖publish", vec![vec![DeleteSub(S0), ListTopicSubs(T0)], vec![Publish(T0, 1)], vec![ListTopicSubs(T0)]]),
         ("delete-topic;get-sub‖publish", vec![vec![DeleteTopic(T0), GetSub(S0), GetSub(S1)], vec![Publish(T0, 1)], vec![Publish(T0, 2)]]),
     ];
